@@ -1,6 +1,8 @@
 import OrsoVerif.Model.PyVal
 import OrsoVerif.Model.DictSession
 import OrsoVerif.Model.DictViews
+import OrsoVerif.Model.DictSchema
+import OrsoVerif.Model.DictJson
 /-! Driver glue for C02.  The driver runs the *assembled code* (`Model/DictRowCode.lean`, built from the
 statements extracted from the working tree), not the specification functions. -/
 namespace Drv.C02
@@ -76,6 +78,95 @@ def outV : Out PyVal → PyVal
   | .appended rows v => .list ([.str "appended", .list (rows.map .list)] ++ (viewsV v).drop 1)
   | .row v => .list (.str "row" :: viewsV v)
 
+def asVia : String → Option Via
+  | "columns" => some .columns
+  | "column_names" => some .columnNames
+  | "iter" => some .iter
+  | _ => none
+
+def asMut : PyVal → Option DictSchema.Mut
+  | .list [.str "rename", .int p, .str name] => some (.rename p.toNat name)
+  | .list [.str "popinsert", .int p, .int q, .str name] => some (.popInsert p.toNat q.toNat name)
+  | .list [.str "swap", .int p, .int q] => some (.swap p.toNat q.toNat)
+  | .list [.str "add", .int p, .str name] => some (.add p.toNat name)
+  | .list [.str "remove", .int p] => some (.remove p.toNat)
+  | .list [.str "reverse"] => some .reverse
+  | .list [.str "assign", .list names] => (asStrs names).map .assign
+  | _ => none
+
+def asBoundOp : PyVal → Option (DictSchema.Op PyVal)
+  | .list [.str "ctx"] => some .ctx
+  | .list [.str "schema", .list fields] => (asStrs fields).map .schema
+  | .list [.str "bound", k, .list rows] => do
+    let k ← asNat k
+    let r ← asRows rows
+    pure (.bound k r)
+  | .list [.str "read", k, .str how] => do
+    let k ← asNat k
+    let v ← asVia how
+    pure (.read k v)
+  | .list [.str "fread", i, .str how] => do
+    let i ← asNat i
+    let v ← asVia how
+    pure (.fread i v)
+  | .list [.str "mutate", k, m] => do
+    let k ← asNat k
+    let m ← asMut m
+    pure (.mutate k m)
+  | .list [.str "append", i, .dict d, .list probes, dflt] => do
+    let i ← asNat i
+    let p ← asStrs probes
+    pure (.append i d p dflt)
+  | .list [.str "rowclass", k, .dict d, .list probes, dflt] => do
+    let k ← asNat k
+    let p ← asStrs probes
+    pure (.rowclass k d p dflt)
+  | .list [.str "reread", i] => (asNat i).map .reread
+  | .list [.str "derive", i, .str how, .int n] => do
+    let i ← asNat i
+    match how with
+    | "slice" => pure (.derive i (.slice (if n < 0 then none else some n.toNat)))
+    | "query" => pure (.derive i .query)
+    | "add" => pure (.derive i .add)
+    | _ => none
+  | _ => none
+
+def asBoundOps : List PyVal → Option (List (DictSchema.Op PyVal))
+  | [] => some []
+  | x :: xs => do
+    let o ← asBoundOp x
+    let os ← asBoundOps xs
+    pure (o :: os)
+
+def boundOutV : DictSchema.Out PyVal → PyVal
+  | .ctx => .list [.str "ctx"]
+  | .skip => .list [.str "skip"]
+  | .err => .list [.str "err"]
+  | .schema => .list [.str "schema"]
+  | .names l => .list [.str "names", .list (l.map .str)]
+  | .frame rows => .list [.str "frame", .list (rows.map .list)]
+  | .refused => .list [.str "refused"]
+  | .appended rows v => .list ([.str "appended", .list (rows.map .list)] ++ (viewsV v).drop 1)
+  | .row v => .list (.str "row" :: viewsV v)
+
+mutual
+/-- a cell as a JSON value of the modelled subset (`none`: a float, bytes, a nested dictionary, an integer beyond
+orjson's 64 bits) -/
+def asJ : PyVal → Option Cast.Json.J
+  | .none => some .null
+  | .bool b => some (.bool b)
+  | .int i => if -9223372036854775808 ≤ i ∧ i < 18446744073709551616 then some (.int i) else none
+  | .str s => some (.str s.toList)
+  | .list xs => (asJs xs).map .arr
+  | _ => none
+def asJs : List PyVal → Option (List Cast.Json.J)
+  | [] => some []
+  | x :: xs => do
+    let j ← asJ x
+    let js ← asJs xs
+    pure (j :: js)
+end
+
 def asView : String → Option View
   | "as_map" => some .asMap
   | "as_dict" => some .asDict
@@ -149,6 +240,19 @@ def handle (op : String) (args : List PyVal) : Option (List PyVal) :=
   | "session", [.list ops] => do
     let ops ← asOps ops
     pure [.list ((run .none .str [] ops).2.map outV)]
+  | "json", [.list fields, .dict d] => do
+    -- the TEXT of as_json: orjson.dumps of the object the source hands it, for cells of the JSON subset
+    let fields ← asStrs fields
+    match rowNew .none .str (createClass fields tuplesOnlyDefault) (.dict d) with
+    | none => pure [errV]
+    | some row =>
+      match asJs row with
+      | none => pure [.str "unsupported"]
+      | some js => pure [.str "text", .str (String.ofList (DictJson.jsonText (fun _ => []) (asJsonViewExpr fields js)))]
+  | "bound", [.list ops] => do
+    -- schema objects, frames bound to them, edits of the objects in between (Model/DictSchema.lean, the routes of the source)
+    let ops ← asBoundOps ops
+    pure [.list ((DictSchema.run DictSchema.codeCfg .none .str ⟨[], []⟩ ops).2.map boundOutV)]
   | _, _ => none
 
 end Drv.C02
